@@ -429,4 +429,223 @@ theorem timeouts_advance {cfg : RCfg} (ht : 1 ≤ cfg.c.total) (e : Env) (r : Re
     rw [hstep]
     simp
 
+/-! ## phase (5): the leader's proposal -/
+
+/-- the commit vote for the block implied by `j`, with the fresh payload's hash unless `j` implies a hash -/
+def voteFor (cfg : RCfg) (j : Just) (fresh : Payload) : Vote :=
+  { view := j.view,
+    proposal := { number := (j.impliedBlock cfg.c).1, payload := ((j.impliedBlock cfg.c).2).getD fresh.id } }
+
+/-- **Phase (5) at one validator**: a replica in `prepare` of view `j.viewNumber` (or behind) accepts the proposal
+the honest leader built from `j`: it is then in that view in phase `commit`, its high vote is the vote for the implied
+block, and that vote has left the node. The commit-vote bookkeeping is untouched; the high commit certificate is the
+old one or the one carried by `j`; a fresh payload is now in the proposal cache. -/
+theorem proposal_sys {cfg : RCfg} (e e' : Env) (s : Sys) (j : Just) (fresh : Payload) (m : Msg) (hw : Wf cfg s.r)
+    (hview : s.r.view < j.viewNumber ∨ (j.viewNumber = s.r.view ∧ s.r.phase = .prepare))
+    (hj : j.verify cfg.c = true) (hm : createProposal cfg e' j fresh = some m)
+    (hsize : fresh.size ≤ cfg.maxPayload) (hpay : e.payloadOk = true)
+    (hq : e.queuedFirst ≤ (j.impliedBlock cfg.c).1)
+    (hprev : (j.impliedBlock cfg.c).2 = none →
+      (j.impliedBlock cfg.c).1 = 0 ∨ (j.impliedBlock cfg.c).1 - 1 < e.persistedNext)
+    (hb : CacheBelowStore s.r e.storeNext) :
+    (sysStep cfg e s (.msg ⟨m, cfg.leader j.viewNumber, true⟩)).r.view = j.viewNumber ∧
+    (sysStep cfg e s (.msg ⟨m, cfg.leader j.viewNumber, true⟩)).r.phase = .commit ∧
+    (sysStep cfg e s (.msg ⟨m, cfg.leader j.viewNumber, true⟩)).r.highVote = some (voteFor cfg j fresh) ∧
+    Msg.commit (voteFor cfg j fresh) ∈ (sysStep cfg e s (.msg ⟨m, cfg.leader j.viewNumber, true⟩)).sent ∧
+    (sysStep cfg e s (.msg ⟨m, cfg.leader j.viewNumber, true⟩)).r.commitViews = s.r.commitViews ∧
+    (sysStep cfg e s (.msg ⟨m, cfg.leader j.viewNumber, true⟩)).r.highCommitQC = hcAfter s.r.highCommitQC j ∧
+    ((j.impliedBlock cfg.c).2 = none →
+      ∃ p ∈ (sysStep cfg e s (.msg ⟨m, cfg.leader j.viewNumber, true⟩)).r.proposals,
+        p.1 = (j.impliedBlock cfg.c).1 ∧ p.2.id = fresh.id) := by
+  have hnb : ∀ q, carriedQC j = some q → ¬ Blocks s.r e q := fun q _ => not_blocks_of_below hb
+  obtain ⟨qs, hacc, f1, f2, _, _, heff⟩ :=
+    Props.C06.honest_proposal_accepted cfg s.r e e' j fresh m hw hview hj hm hsize hpay hq hprev hnb
+  have hin : ∀ b, Input.msg ⟨m, cfg.leader j.viewNumber, true⟩ ≠ .restart b := by intro b h; cases h
+  have hsend : Effect.send (.commit (voteFor cfg j fresh)) ∈
+      (step cfg s.r e (.msg ⟨m, cfg.leader j.viewNumber, true⟩)).effs := by
+    rw [heff]; simp [voteFor]
+  have hhv := (Props.C05.commit_is_high_vote cfg s.r e _ hw hin hacc _ hsend).1
+  have hck := (step_delta cfg s.r e (.msg ⟨m, cfg.leader j.viewNumber, true⟩) hin).ckeep
+  rw [sysStep_r, sysStep_sent]
+  refine ⟨f1, f2, hhv, List.mem_append_right _ (mem_sendsOf.mpr hsend), ?_, ?_, ?_⟩
+  · apply hck
+    intro key v h
+    rcases Props.C05.proposal_self_justifying cfg e' j fresh m hm with ⟨_, _, rfl⟩ | ⟨_, rfl⟩ <;> cases h
+  · rcases Props.C05.proposal_self_justifying cfg e' j fresh m hm with ⟨_, _, rfl⟩ | ⟨_, rfl⟩
+    all_goals
+      have hacc' : (onProposal cfg s.r e (cfg.leader j.viewNumber) true _ j).out = .accepted := hacc
+      obtain ⟨_, hash, r0, hd, _, heq⟩ := onProposal_accepted_shape hacc'
+      show (onProposal cfg s.r e (cfg.leader j.viewNumber) true _ j).r.highCommitQC = _
+      rw [heq]
+      show (processJust (propR1 cfg r0 j hash) e j).1.highCommitQC = _
+      rw [processJust_hc]
+      have : (propR1 cfg r0 j hash).highCommitQC = s.r.highCommitQC := by
+        rw [propDecide_rest hd]; rfl
+      rw [this]
+  · intro hnone
+    rcases Props.C05.proposal_self_justifying cfg e' j fresh m hm with ⟨hsh, hi, _⟩ | ⟨_, rfl⟩
+    · rw [hi] at hnone; cases hnone
+    · obtain ⟨_, _, _, _, _, hash, hh, _, _, _, _⟩ :=
+        Props.C05.accepted_proposal_conforms cfg s.r e _ _ (some fresh) j hacc
+      rcases hh with ⟨a, _⟩ | ⟨_, pl, b, c, _, _, _, q, hq1, hq2, hq3⟩
+      · rw [a] at hnone; cases hnone
+      · cases b
+        exact ⟨q, hq1, hq2, hq3⟩
+
+/-! ## phase (6): the exchange of commit votes -/
+
+/-- a commit vote for `vt` as an input, validly signed by `key` -/
+def cin (vt : Vote) (key : Nat) : Input := .msg ⟨.commit vt, key, true⟩
+
+theorem runE_old_commits (cfg : RCfg) (e : Env) (vt : Vote) :
+    ∀ (keys : List Nat) (r : Replica), vt.view.number < r.view →
+      runE cfg e r (keys.map (cin vt)) = r ∧ effsE cfg e r (keys.map (cin vt)) = [] := by
+  intro keys
+  induction keys with
+  | nil => intro r _; exact ⟨rfl, rfl⟩
+  | cons k rest ih =>
+    intro r hlt
+    have hstep : ∃ w, step cfg r e (cin vt k) = rej r w := by
+      show ∃ w, onCommit cfg r e k true vt = rej r w
+      rcases onCommit_cases cfg r e k true vt with ⟨_, w, h⟩ | ⟨hc, _⟩
+      · exact ⟨w, h⟩
+      · have := hc.2.1; omega
+    obtain ⟨w, hstep⟩ := hstep
+    obtain ⟨i1, i2⟩ := ih r hlt
+    constructor
+    · rw [List.map_cons, runE_cons, hstep]; exact i1
+    · rw [List.map_cons]
+      simp only [effsE]
+      rw [hstep]
+      exact i2
+
+/-- **Phase (6) at one validator.** The replica is in view `≤ vt.view`; it is handed validly signed commit votes for
+the verifying vote `vt` from distinct committee members whose weight reaches the quorum, none of which is recorded for
+view `vt.view` or later. Next to a store that has caught up with the proposal cache it ends in view `vt.view + 1`,
+phase `prepare`; the commit certificate `qc` completed on the way verifies and is for exactly `vt`; if it is newer than
+the certificate held at the start it is the high commit certificate at the end; if moreover the payload is cached and
+the store is exactly at that block (`Hands`), the block was handed to the store (`queueBlock`); and the proposer was
+notified with the justification of the final state. -/
+theorem commits_advance {cfg : RCfg} (ht : 1 ≤ cfg.c.total) (e : Env) (r : Replica) (vt : Vote) (keys : List Nat)
+    (hw : Wf cfg r) (hv : vt.verify cfg.c = true) (hview : r.view ≤ vt.view.number)
+    (hnw : vt.view.number + 1 < 2 ^ 64) (hk : ∀ k ∈ keys, k < cfg.c.n) (hnd : keys.Nodup)
+    (hfresh : ∀ k ∈ keys, ∀ w, alGet r.commitViews k = some w → w < vt.view.number)
+    (hstore : CacheBelowStore r e.storeNext) (hsane : e.persistedNext ≤ e.storeNext)
+    (hweight : cfg.c.quorum ≤ (keys.map (fun k => cfg.c.weights.getD k 0)).sum) :
+    (runE cfg e r (keys.map (cin vt))).view = vt.view.number + 1 ∧
+    (runE cfg e r (keys.map (cin vt))).phase = .prepare ∧
+    ∃ qc : CommitQC, qc.verify cfg.c = true ∧ qc.message = vt ∧
+      (Newer r qc → (runE cfg e r (keys.map (cin vt))).highCommitQC = some qc) ∧
+      (Hands r e qc → Effect.queueBlock vt.proposal.number vt.proposal.payload qc ∈
+        effsE cfg e r (keys.map (cin vt))) ∧
+      ∃ j, getJustification (runE cfg e r (keys.map (cin vt))) = .ok j ∧
+        Effect.notify j ∈ effsE cfg e r (keys.map (cin vt)) := by
+  have hne : keys ≠ [] := by
+    intro h
+    rw [h] at hweight
+    have := quorum_pos cfg.c ht
+    simp at hweight
+    omega
+  have hmap : (keys.map (cin vt)).map (fun i => (e, i)) = (keys.map (fun k => (e, k))).map (commitInput vt) := by
+    rw [List.map_map, List.map_map]; rfl
+  have hfinal := Props.C06.quorum_of_commits_advances_any_order cfg r vt (keys.map (fun k => (e, k))) hw hv hview hnw
+    (by simpa using hne)
+    (by intro x hx; obtain ⟨k, hk', rfl⟩ := List.mem_map.mp hx; exact hk k hk')
+    (by rw [List.map_map]; simpa using hnd)
+    (by intro x hx w hw'; obtain ⟨k, hk', rfl⟩ := List.mem_map.mp hx; exact hfresh k hk' w hw')
+    (by rw [List.map_map]; exact hweight)
+    (by intro x hx p hp; obtain ⟨k, hk', rfl⟩ := List.mem_map.mp hx; exact hstore p hp)
+  rw [← hmap, ← runE_eq_run] at hfinal
+  obtain ⟨f1, f2, _, _⟩ := hfinal
+  refine ⟨f1, f2, ?_⟩
+  -- the first step that changes the view; before it only the caches change
+  have hnr : ∀ x ∈ keys.map (cin vt), ∀ b, x ≠ .restart b := by
+    intro x hx b hb
+    obtain ⟨y, _, rfl⟩ := List.mem_map.mp hx
+    cases hb
+  have hpres : ∀ r' x, x ∈ keys.map (cin vt) → (Wf cfg r' ∧ r'.toDurable = r.toDurable ∧ r'.view ≤ vt.view.number) →
+      (step cfg r' e x).r.view = r'.view →
+      (Wf cfg (step cfg r' e x).r ∧ (step cfg r' e x).r.toDurable = r.toDurable ∧
+        (step cfg r' e x).r.view ≤ vt.view.number) := by
+    intro r' x hx ⟨hw', hd', hv'⟩ hsame
+    have hb' : CacheBelowStore r' e.storeNext := by
+      have : r'.proposals = r.proposals := congrArg Durable.proposals hd'
+      intro p hp; rw [this] at hp; exact hstore p hp
+    refine ⟨(wf_below_step hsane (hnr x hx) ⟨hw', hb'⟩).1, ?_, by rw [hsame]; exact hv'⟩
+    obtain ⟨k, _, rfl⟩ := List.mem_map.mp hx
+    show (onCommit cfg r' e k true vt).r.toDurable = _
+    have hsame' : (onCommit cfg r' e k true vt).r.view = r'.view := hsame
+    rcases onCommit_cases cfg r' e k true vt with ⟨_, w, h⟩ | ⟨hc, htl⟩
+    · rw [h]; exact hd'
+    · obtain ⟨qc, _, _, hlw, hhigh⟩ := commitTail_reaction e hw' hc
+      rw [htl] at hsame' ⊢
+      by_cases hlt : weightOf cfg.c.weights qc.signers < cfg.c.quorum
+      · rw [hlw hlt]; exact hd'
+      · obtain ⟨_, hbk, ha⟩ := hhigh (by omega)
+        cases hok : (processCommitQC (commitR2 r' k vt qc) e qc).2.2 with
+        | false =>
+          have hbl : (step cfg r' e (cin vt k)).out = .blocked := by
+            show (onCommit cfg r' e k true vt).out = .blocked
+            rw [htl, hbk hok]
+          exact absurd hbl (step_not_blocked cfg _ e _ hb' hsane)
+        | true =>
+          obtain ⟨j, _, heq⟩ := ha hok
+          rw [heq] at hsame'
+          obtain ⟨g1, _⟩ := snvState_fields (processCommitQC (commitR2 r' k vt qc) e qc).1 (nextU64 vt.view.number)
+          have : (snvState (processCommitQC (commitR2 r' k vt qc) e qc).1 (nextU64 vt.view.number)).view = r'.view :=
+            hsame'
+          rw [g1, nextU64_eq _ hnw] at this
+          omega
+  obtain ⟨l1, x, l2, hl, ⟨hwm, hdm, hvm'⟩, hvm, hchg⟩ := runE_first_change cfg e
+    (fun r' => Wf cfg r' ∧ r'.toDurable = r.toDurable ∧ r'.view ≤ vt.view.number) (keys.map (cin vt)) r
+    ⟨hw, rfl, hview⟩ hpres (by rw [f1]; omega)
+  have hxm : x ∈ keys.map (cin vt) := by rw [hl]; simp
+  obtain ⟨k, hkm, rfl⟩ := List.mem_map.mp hxm
+  have hbm : CacheBelowStore (runE cfg e r l1) e.storeNext := by
+    have : (runE cfg e r l1).proposals = r.proposals := congrArg Durable.proposals hdm
+    intro p hp; rw [this] at hp; exact hstore p hp
+  have hstepchg : (onCommit cfg (runE cfg e r l1) e k true vt).r.view ≠ r.view := hchg
+  rcases onCommit_cases cfg (runE cfg e r l1) e k true vt with ⟨_, w, h⟩ | ⟨hc, htl⟩
+  · rw [h] at hstepchg; exact absurd hvm hstepchg
+  obtain ⟨qc, hadd, _, hlw, _⟩ := commitTail_reaction e hwm hc
+  have hq : cfg.c.quorum ≤ weightOf cfg.c.weights qc.signers := by
+    apply Classical.byContradiction
+    intro hlt
+    rw [htl, hlw (by omega)] at hstepchg
+    exact absurd hvm hstepchg
+  have hnb : ¬ Blocks (runE cfg e r l1) e qc := not_blocks_of_below hbm
+  obtain ⟨j', hver, hmsg, _, c4, _, _, c7, _, _, c10, _, _, c13, c14⟩ :=
+    Props.C06.commit_quorum_advances cfg (runE cfg e r l1) e k vt qc hwm hc.1 hc.2.1 hc.2.2.1 hv hadd hq hnw hnb
+  have hl2 : ∃ keys2 : List Nat, l2 = keys2.map (cin vt) := by
+    obtain ⟨a, b, _, _, hb'⟩ := List.map_eq_append_iff.mp hl
+    obtain ⟨c, d, _, _, hd'⟩ := List.map_eq_cons_iff.mp hb'
+    exact ⟨d, hd'.symm⟩
+  obtain ⟨keys2, rfl⟩ := hl2
+  have hfin : runE cfg e r (keys.map (cin vt)) = (step cfg (runE cfg e r l1) e (cin vt k)).r := by
+    rw [hl, runE_append, runE_cons]
+    refine (runE_old_commits cfg e vt keys2 _ ?_).1
+    show vt.view.number < (step cfg (runE cfg e r l1) e (.msg ⟨.commit vt, k, true⟩)).r.view
+    rw [c4]; omega
+  have hhc : (runE cfg e r l1).highCommitQC = r.highCommitQC := congrArg Durable.highCommitQC hdm
+  have hpr : (runE cfg e r l1).proposals = r.proposals := congrArg Durable.proposals hdm
+  have hnewer : Newer (runE cfg e r l1) qc ↔ Newer r qc := by unfold Newer; rw [hhc]
+  have hhands : Hands (runE cfg e r l1) e qc ↔ Hands r e qc := hands_congr e qc hhc hpr
+  refine ⟨qc, hver, hmsg, ?_, ?_, j', ?_, ?_⟩
+  · intro hn
+    rw [hfin]
+    exact c7 (hnewer.mpr hn)
+  · intro hh
+    rw [hl]
+    apply effsE_mid cfg e r l1 (cin vt k) (keys2.map (cin vt))
+    show _ ∈ (step cfg (runE cfg e r l1) e (.msg ⟨.commit vt, k, true⟩)).effs
+    rw [c13 (hhands.mpr hh)]
+    simp
+  · rw [hfin]; exact c10
+  · rw [hl]
+    apply effsE_mid cfg e r l1 (cin vt k) (keys2.map (cin vt))
+    show _ ∈ (step cfg (runE cfg e r l1) e (.msg ⟨.commit vt, k, true⟩)).effs
+    by_cases hh : Hands (runE cfg e r l1) e qc
+    · rw [c13 hh]; simp
+    · rw [c14 hh]; simp
+
 end EraVerif.Proofs.Sync
